@@ -39,7 +39,7 @@ def run(ctx):
         ctx.violation('exception leaves pipeline() through execute() while generator tasks are queued (crash / undefined behaviour): ' + (out_esc or '')[:200],
                       {'finding_key': pc.KEY_ESCAPE, 'case': pc.line_of(pc.WIT_ESCAPE)})
     # 2. generated cases with exceptions
-    n = 120 if ctx.quick else 2500
+    n = 100 if ctx.quick else 2500
     cases = [pc.gen_case(r, exceptions=True, small=(i % 10 != 0) or ctx.quick) for i in range(n)]
     kept, terms = pc.run_lockstep(ctx, exe, cases)
     nn = 12 if ctx.quick else 120
@@ -51,8 +51,8 @@ def run(ctx):
     ctx.cov['rule'] = ('random pipelines with at least one throw position (stage x item first/middle/last/random, or the generator), 1-4 later stages, limits 1/2/3/unlimited/0,4,7, '
                        '0-6 items (lockstep) / 0-30 (native), 1-3 workers, inline thresholds x random schedules under vsched, payloads lifetime-tracked; non-trivial = more than 20 steps; '
                        'distinct = distinct (trace, log) strings; plus the three finding witnesses; native = real pools of 0-4 threads, one generator instance, 2 repetitions')
-    verdicts = ls_common.judge_parallel(ctx, pc.IMPORTS, 'judge_c29', wt + terms, shard_size=60)
-    nverd = ls_common.judge_parallel(ctx, pc.IMPORTS, 'judge_c29n', nterms, shard_size=60)
+    verdicts = ls_common.judge_parallel(ctx, pc.IMPORTS, 'judge_c29', wt + terms, shard_size=25)
+    nverd = ls_common.judge_parallel(ctx, pc.IMPORTS, 'judge_c29n', nterms, shard_size=25)
     if verdicts is not None and nverd is not None:
         verdicts = verdicts + nverd
     else:
